@@ -147,11 +147,14 @@ pub fn make_module() -> KMap {
         match ctx.instance_and_args(is_list, expected_error)? {
             (KValue::List(l), [KValue::Number(n), value]) => {
                 let index: usize = n.into();
-                if *n < 0.0 || index > l.data().len() {
-                    return runtime_error!("index out of bounds");
+                {
+                    // The bounds are checked while the list is locked for the insertion
+                    let mut data = l.data_mut();
+                    if *n < 0.0 || index > data.len() {
+                        return runtime_error!("index out of bounds");
+                    }
+                    data.insert(index, value.clone());
                 }
-
-                l.data_mut().insert(index, value.clone());
                 Ok(KValue::List(l.clone()))
             }
             (instance, args) => unexpected_args_after_instance(expected_error, instance, args),
@@ -209,11 +212,13 @@ pub fn make_module() -> KMap {
         match ctx.instance_and_args(is_list, expected_error)? {
             (KValue::List(l), [KValue::Number(n)]) => {
                 let index: usize = n.into();
-                if *n < 0.0 || index >= l.data().len() {
+                // The bounds are checked while the list is locked for the removal
+                let mut data = l.data_mut();
+                if *n < 0.0 || index >= data.len() {
                     return runtime_error!("index out of bounds");
                 }
 
-                Ok(l.data_mut().remove(index))
+                Ok(data.remove(index))
             }
             (instance, args) => unexpected_args_after_instance(expected_error, instance, args),
         }
